@@ -26,7 +26,9 @@ def _clear_process_caches():
 
 def default(eng, **opts):
     """the bundled registry at the engine's numeric type, restored to pristine state"""
-    key = (eng.ntype, tuple(sorted(opts.items())))
+    # one instance per hash function in force (see SymEngine._install_hash_stub): cached
+    # container hashes must never be mixed between the two
+    key = (eng.ntype, tuple(sorted(opts.items())), getattr(eng, "hash_mode", "realize") != "realize")
     ent = _DEFAULT.get(key)
     if ent is None:
         ureg = pint.UnitRegistry(non_int_type=eng.ntype, **opts)
